@@ -62,6 +62,9 @@ def cases(tier, seed):
     n = 4 if tier == "quick" else 72
     for k in range(n):
         out.append(dict(kind="multipoint", seed=int(rng.integers(1 << 30)), npts=2 + k % 2, _cost=40))
+    n = 4 if tier == "quick" else 36
+    for k in range(n):
+        out.append(dict(kind="units", seed=int(rng.integers(1 << 30)), _cost=14))
     n = 3 if tier == "quick" else 48
     for k in range(n):
         out.append(dict(kind="stiff", seed=int(rng.integers(1 << 30)), _cost=25))
@@ -320,7 +323,32 @@ def run_stiff(c, o):
     o.nontrivial = bool(f[0] > 1e-8)
 
 
+def run_units(c, o):
+    """the same physical inputs supplied through sources declared in other units must give the same coupled state"""
+    rng = np.random.default_rng(c["seed"])
+    s = gen_surface(rng)
+    flow = gen_flow(rng)
+    case = dict(surfaces=[s], flow=flow)
+    npm = int(rng.choice([0, 1, 2]))
+    if npm:
+        s["n_point_masses"] = npm
+        b2 = s["mesh"]["span"] / 2
+        case.update(point_masses=[float(x) for x in 10 ** rng.uniform(1.5, 3, npm)],
+                    point_mass_locations=[[float(rng.uniform(-1, 2)), float(-rng.uniform(0.15, 0.85) * b2), float(rng.uniform(-0.5, 0.5))] for _ in range(npm)],
+                    engine_thrusts=[float(x) for x in 10 ** rng.uniform(2, 4, npm)])
+    p0 = zoo.build_as(case)
+    zoo.run(p0)
+    un = dict(W0="lbm", R="NM", CT="1/h", speed_of_sound="ft/s", v="knot", alpha="rad", rho="slug/ft**3", point_masses="lbm", point_mass_locations="ft",
+              engine_thrusts="lbf", empty_cg="ft", fuel_mass="lbm", re="1/ft")
+    p1 = zoo.build_as(dict(case, units=un))
+    zoo.run(p1)
+    tags = [s["fem_model_type"], "npm=%d" % npm, "other_units"]
+    cmp(o, "units/state", state(p1), state(p0), tags, rtol=1e-7, what="inputs supplied in lbm/NM/knot/rad/ft/lbf")
+    cmp(o, "units/outputs", outputs(p1), outputs(p0), tags, rtol=1e-7, what="inputs supplied in lbm/NM/knot/rad/ft/lbf")
+    o.nontrivial = True
+
+
 def run_case(c):
     o = Obs()
-    {"fixed": run_fixed, "solvers": run_solvers, "multipoint": run_multipoint, "stiff": run_stiff}[c["kind"]](c, o)
+    {"fixed": run_fixed, "solvers": run_solvers, "multipoint": run_multipoint, "stiff": run_stiff, "units": run_units}[c["kind"]](c, o)
     return o
